@@ -908,8 +908,39 @@ def _opaque_sum(bounds, body):
 
     body = z3.simplify(body)
 
+    # canonical order of the bound variables: first by a per-variable signature (the body and the ranges with this
+    # variable marked and all other bound variables anonymised), then -- only among variables with equal
+    # signatures -- by the lexicographically least rendering over their permutations
+    allv = [b[0] for b in bounds]
+    anon = z3.Int("__O")
+    mark = z3.Int("__X")
+
+    def signature(k):
+        subs = [(v, mark if j == k else anon) for j, v in enumerate(allv)]
+        parts = [_canon(z3.substitute(body, *subs)).sexpr()]
+        for _, lo, hi in bounds:
+            parts.append(_canon(z3.substitute(lo, *subs)).sexpr() + "," + _canon(z3.substitute(hi, *subs)).sexpr())
+        return "|".join(parts) + "#" + _canon(z3.substitute(bounds[k][1], *subs)).sexpr() + "," + _canon(z3.substitute(bounds[k][2], *subs)).sexpr()
+
+    sigs = [signature(k) for k in range(len(bounds))]
+    order = sorted(range(len(bounds)), key=lambda k: sigs[k])
+    groups = []
+    for k in order:
+        if groups and sigs[groups[-1][0]] == sigs[k]:
+            groups[-1].append(k)
+        else:
+            groups.append([k])
+    n_perms = 1
+    for g in groups:
+        for q in range(2, len(g) + 1):
+            n_perms *= q
+    if n_perms > 720:
+        group_perms = [[tuple(g)] for g in groups]  # give up on tie-breaking (sound, possibly incomplete)
+    else:
+        group_perms = [list(itertools.permutations(g)) for g in groups]
     best = None
-    for perm in itertools.permutations(range(len(bounds))):
+    for choice in itertools.product(*group_perms):
+        perm = [k for g in choice for k in g]
         pb = [bounds[i] for i in perm]
         subs = [(b[0], z3.Int(f"__B{j}")) for j, b in enumerate(pb)]
         rb = _canon(z3.substitute(body, *subs))
@@ -917,8 +948,6 @@ def _opaque_sum(bounds, body):
         s = rb.sexpr() + "|" + "|".join(f"{lo.sexpr()},{hi.sexpr()}" for lo, hi in rbounds)
         if best is None or s < best[0]:
             best = (s, pb, rb, rbounds)
-        if len(bounds) > 4:
-            break
     s, pb, rb, rbounds = best
     # abstract the maximal bound-variable-free subterms into parameters (congruence for the solver)
     placeholders = {f"__B{j}" for j in range(len(pb))}
